@@ -173,6 +173,9 @@ func (t *Type) _resolve(def *Definition, impOrNil *Import) {
 
 	t.Ref = def
 	t.Import = impOrNil
+	if impOrNil != nil {
+		impOrNil.Used = true
+	}
 
 	switch def.Type {
 	case DefinitionEnum:
